@@ -192,3 +192,30 @@ pub fn h_c34_cycle_reference() {
     }
     reach("C34.cycle_reference");
 }
+
+/// non-ASCII text before the reference (cursor positions are counted in characters, the text is stored in bytes):
+/// `="é"&A1+1` / `='Año'!A1+B2` with the cursor anywhere in or at the edges of the first reference
+pub fn h_c34_cycle_reference_after_non_ascii_text() {
+    let quoted_sheet = any_bool();
+    let (value, first, last, steps) = if quoted_sheet {
+        ("='Año'!A1+B2", 1usize, 9usize, ["='Año'!$A$1+B2", "='Año'!A$1+B2", "='Año'!$A1+B2", "='Año'!A1+B2"])
+    } else {
+        ("=\"é\"&A1+1", 5usize, 7usize, ["=\"é\"&$A$1+1", "=\"é\"&A$1+1", "=\"é\"&$A1+1", "=\"é\"&A1+1"])
+    };
+    let cursor = any_usize();
+    assume((cursor >= first) & (cursor <= last));
+    let locale = locale_with(".", ",");
+    let mut text = value.to_string();
+    let mut at = cursor;
+    let mut ok = true;
+    let mut i = 0;
+    while i < 4 {
+        match cycle_reference(&text, at, at, &locale, language_en()) {
+            Ok((t, s, e)) => { ok &= (t == steps[i]) & (s == e) & (s >= 0); text = t; at = s as usize; }
+            Err(_) => { ok = false; }
+        }
+        i += 1;
+    }
+    check("C34.non_ascii.four_steps_change_only_the_markers", ok);
+    reach("C34.non_ascii");
+}
